@@ -1129,6 +1129,17 @@ def run_vector(case):
                 C.expect(bool(row["terminated"]) == bool(ev["terminated"][i]), f"{name}.rollout.terminated",
                          lambda: f"{pos}: stored terminated={row['terminated']}, step returned "
                                  f"terminated={ev['terminated'][i]} truncated={ev['truncated'][i]}")
+                if name == "ppo" and via == "collect" and "next_value" in ro:
+                    # the value the rollout bootstraps from must be the critic's value of the observation this
+                    # environment returned at this step (its final observation when the episode ended here);
+                    # the critic is not trained between collect calls, so it can be evaluated afterwards
+                    fin = ev.get("final_obs")
+                    succ = fin[i] if fin is not None and fin[i] is not None else ev["obs"][i]
+                    want_v = float(np.asarray(state["value_function"](np.asarray(succ, dtype=np.float32)[None])).reshape(-1)[0])
+                    got_v = float(ro["next_value"][j])
+                    C.expect(abs(got_v - want_v) <= 1e-5 * max(1.0, abs(want_v)), f"{name}.rollout.next_value_successor",
+                             lambda: f"{pos}: next_value {got_v} is not the critic's value {want_v} of the observation "
+                                     f"{_where(succ)} that this environment returned at this step")
                 if "truncated" in row:
                     C.expect(bool(row["truncated"]) == bool(ev["truncated"][i]), f"{name}.rollout.truncated",
                              lambda: f"{pos}: stored truncated={row['truncated']}, step returned "
